@@ -81,11 +81,19 @@ class LeakHarness(planh.PlanHarness):
             s.log("start", i)
             if harness.cfg["W"] == 1:
                 # one worker: when a call starts, the engine-side processing of every earlier call is over
-                s.ctx["completed"].update(s.ctx["started"])
+                # (a further attempt of the same call under retry is still that call)
+                s.ctx["completed"].update(x for x in s.ctx["started"] if x != i)
                 s.ctx["completed"].update(s.ctx["failed_seen"])
             s.ctx["started"].append(i)
             harness.audit(s, ("start", i))
             e1.hpoint(("call", i))
+            flaky = (harness.cfg.get("flaky") or {}).get(str(i), 0)
+            if flaky:
+                k = s.ctx["attempts"].get(i, 0)
+                s.ctx["attempts"][i] = k + 1
+                if k < flaky:
+                    s.log("flaky", i, k)
+                    raise engine.Boom(f"transient failure {k} of c{i}")
             if i in harness.fail:
                 ex = engine.make_exc(harness.fail[i], f"c{i}")
                 if s.ctx["first_failed"] is None:
@@ -107,6 +115,7 @@ class LeakHarness(planh.PlanHarness):
         ctx["started"] = []
         ctx["first_failed"] = None
         ctx["failed_seen"] = set()
+        ctx["attempts"] = {}
         self.extra_refs = []
         self.written = set()
         return ctx
@@ -146,6 +155,25 @@ class LeakHarness(planh.PlanHarness):
         kw = super().run_kwargs()
         if self.registry is not None:
             kw["registry"] = self.registry
+        r = self.cfg.get("retry")
+        if r == "stateful":
+            class AttemptLog:
+                """a user retry decorator with per-decoration state: remembers the failed attempts of the call it wraps"""
+
+                def __init__(self, f):
+                    self.f, self.failures = f, []
+
+                def __call__(self, *a, **k):
+                    for _ in range(3):
+                        try:
+                            return self.f(*a, **k)
+                        except Exception as e:  # noqa
+                            self.failures.append(e)
+                    raise self.failures[-1]
+
+            kw["retry"] = AttemptLog
+        elif r:
+            kw["retry"] = r
         return kw
 
     def audit(self, s, where):
@@ -270,6 +298,21 @@ def fault_cfgs(tier):
                                "fail": {str(f): k for f, k in zip(fs, ks)}, "max_errors": None}
 
 
+def retry_cfgs(tier):
+    """Calls that fail transiently and succeed on a later attempt (built-in retry=2/3 and a user decorator that
+    remembers failed attempts per decoration): the failed attempts' exceptions hold frames that hold the
+    arguments, and nothing of uberjob may keep them once the call has finished."""
+    shapes = [(4, [(0, 1), (1, 2), (2, 3)]), (5, [(0, 1), (0, 2), (1, 3), (2, 3), (3, 4)]), (5, [(0, 2), (1, 3), (2, 4), (3, 4)])]
+    for n, edges in shapes:
+        consumers = sorted({j for _, j in edges})[:2]
+        for r in (2, 3, "stateful"):
+            for fl in ([consumers[0]], consumers):
+                for k in ((1, 2) if r != 2 else (1,)):
+                    for sc in ("default", "random"):
+                        yield {"n": n, "edges": [(i, j, "p") for i, j in edges], "output": n - 1, "W": 1, "sched": sc,
+                               "retry": r, "flaky": {str(i): k for i in fl}, "fail": {}}
+
+
 def cfail_cfgs(tier):
     """A consumer implemented in C (operator.neg on a result object) fails: its traceback holds no frame of the callee,
     so even when it is the FIRST failure nothing may keep its argument alive once it has finished."""
@@ -289,11 +332,13 @@ def explorations(tier):
         return [("G3+G4+scheduler-test shapes, W=1, <=1 preemption, random draws enumerated (<=2 deviations)", FACTORY, list(cfgs(tier, 1)), {"preempt": 1, "random": 2, "yield": 1}),
                 ("G3+scheduler-test shapes, W=2, <=1 preemption", FACTORY, list(cfgs(tier, 2)), {"preempt": 1, "random": 1, "yield": 1}),
                 ("failing consumers (Exception/BaseException/SystemExit), max_errors=None, W=1", FACTORY, [c for c in fault_cfgs(tier) if c["sched"] == "random" or len(c["fail"]) == 1], {"preempt": 0}),
-                ("failing consumers implemented in C, max_errors=None, W=1, every pop order", FACTORY, list(cfail_cfgs(tier)), {"preempt": 0})]
+                ("failing consumers implemented in C, max_errors=None, W=1, every pop order", FACTORY, list(cfail_cfgs(tier)), {"preempt": 0}),
+                ("transiently failing consumers under retry=2/3 and a stateful user retry decorator, W=1, every pop order", FACTORY, list(retry_cfgs(tier)), {"preempt": 0})]
     return [("G3+G4+shapes, W=1, <=1 preemption, all random draws", FACTORY, list(cfgs(tier, 1)), {"preempt": 1}),
             ("G3+G4+shapes, W=2, <=2 preemptions", FACTORY, list(cfgs(tier, 2)), {"preempt": 2, "random": 1, "yield": 2}),
             ("failing consumers (Exception/BaseException/SystemExit), max_errors=None, W=1", FACTORY, list(fault_cfgs(tier)), {"preempt": 1}),
-            ("failing consumers implemented in C, max_errors=None, W=1, every pop order", FACTORY, list(cfail_cfgs(tier)), {"preempt": 1})]
+            ("failing consumers implemented in C, max_errors=None, W=1, every pop order", FACTORY, list(cfail_cfgs(tier)), {"preempt": 1}),
+            ("transiently failing consumers under retry=2/3 and a stateful user retry decorator, W=1, every pop order", FACTORY, list(retry_cfgs(tier)), {"preempt": 1})]
 
 
 def run(tier):
